@@ -4,6 +4,7 @@ package c12
 import (
 	"bufio"
 	"bytes"
+	"context"
 	"fmt"
 	"io"
 	"net"
@@ -959,6 +960,146 @@ func TestClientSideFrames(t *testing.T) {
 		}
 	}
 	ev.S.Exhaustive("client-side-frames", true)
+}
+
+// gatedListener hands out connections whose reads wait until the gate is opened: a server that is slow
+// to take the request.
+type gatedListener struct {
+	net.Listener
+	gate chan struct{}
+}
+
+type gatedConn struct {
+	net.Conn
+	gate chan struct{}
+}
+
+func (c *gatedConn) Read(p []byte) (int, error) {
+	<-c.gate
+	return c.Conn.Read(p)
+}
+
+func (l *gatedListener) Accept() (net.Conn, error) {
+	c, err := l.Listener.Accept()
+	if err != nil {
+		return nil, err
+	}
+	if t, ok := c.(*net.TCPConn); ok {
+		t.SetReadBuffer(256 << 10)
+	}
+	return &gatedConn{c, l.gate}, nil
+}
+
+// TestAbandonedRequest: the peer is slow to take a large request, the caller gives the call up (context
+// cancelled or client time-out) and reuses its buffer for the next message, then the peer reads on. What
+// the service side receives for the abandoned call must be the submitted bytes or nothing, never a mix.
+func TestAbandonedRequest(t *testing.T) {
+	const size = 8 << 20
+	k := 0
+	for _, kind := range []string{"tcp", "unix", "ws", "http"} {
+		for _, how := range []string{"cancel", "timeout"} {
+			k++
+			if ev.S.NShards > 1 && k%ev.S.NShards != ev.S.Shard {
+				continue
+			}
+			canon := fmt.Sprintf("%s (fasthttp-client=%v): 8 MiB request to a peer that is slow to read, given up by %s, buffer reused, then the peer reads on", kind, tp.FastHTTPClient(), how)
+			ev.S.Begin("abandoned-request", canon)
+			buf := bytes.Repeat([]byte{'A'}, size)
+			var delivered [][]byte
+			var url string
+			var resume func()
+			var collect func() [][]byte
+			var cleanup func()
+			if kind == "http" {
+				ln, err := net.Listen("tcp", "127.0.0.1:0")
+				if err != nil {
+					t.Fatal(err)
+				}
+				gl := &gatedListener{ln, make(chan struct{})}
+				var mu sync.Mutex
+				srv := &http.Server{Handler: http.HandlerFunc(func(w http.ResponseWriter, r *http.Request) {
+					b, err := io.ReadAll(r.Body)
+					if err == nil && int64(len(b)) == r.ContentLength {
+						mu.Lock()
+						delivered = append(delivered, b)
+						mu.Unlock()
+					}
+					w.Write([]byte("Rnz"))
+				})}
+				go srv.Serve(gl)
+				url = "http://" + ln.Addr().String() + "/"
+				resume = func() { close(gl.gate) }
+				collect = func() [][]byte {
+					time.Sleep(1500 * time.Millisecond)
+					mu.Lock()
+					defer mu.Unlock()
+					return delivered
+				}
+				cleanup = func() { srv.Close() }
+			} else {
+				p, err := peer.Start(kind)
+				if err != nil {
+					t.Fatal(err)
+				}
+				p.Pause()
+				url = p.URL
+				resume = p.Resume
+				collect = func() [][]byte {
+					var out [][]byte
+					for {
+						f, err := p.Recv(1500 * time.Millisecond)
+						if err != nil {
+							return out
+						}
+						out = append(out, f.Body)
+					}
+				}
+				cleanup = p.Close
+			}
+			client := core.NewClient(url)
+			if how == "timeout" {
+				client.Timeout = 300 * time.Millisecond
+			}
+			ctx, cancel := context.WithCancel(context.Background())
+			cc := core.NewClientContext()
+			cc.Init(client)
+			done := make(chan error, 1)
+			go func() {
+				_, err := client.Request(core.WithContext(ctx, cc), buf)
+				done <- err
+			}()
+			time.Sleep(400 * time.Millisecond)
+			cancel()
+			problem := ""
+			select {
+			case err := <-done:
+				if err == nil {
+					problem = "the abandoned call returned without an error"
+				}
+			case <-time.After(5 * time.Second):
+				problem = "the call did not return after it was given up"
+			}
+			// the caller has its buffer back: the next message goes into it
+			for i := range buf {
+				buf[i] = 'B'
+			}
+			resume()
+			for _, d := range collect() {
+				if problem != "" {
+					break
+				}
+				a, b := bytes.Count(d, []byte{'A'}), bytes.Count(d, []byte{'B'})
+				if len(d) != size || a != size {
+					problem = fmt.Sprintf("the service side received a %d-byte request made of %d bytes of the submitted message and %d bytes the caller wrote into its buffer after the call had returned", len(d), a, b)
+				}
+			}
+			cancel()
+			client.Abort()
+			cleanup()
+			ev.S.Case("abandoned-request", canon, true, "abandoned="+kind+"/"+how)
+			report(t, "abandoned-request", "TestAbandonedRequest", canon, problem)
+		}
+	}
 }
 
 func TestFinding(t *testing.T) {
